@@ -257,7 +257,7 @@ Section CfgSafety.
     - now apply Nat.eqb_eq in H.
     - now apply Nat.leb_le in H.
     - intros Hcc. rewrite Hcc in H. simpl in H. now apply negb_true_iff in H.
-    - now apply Nat.eqb_eq in H.
+    - now apply Nat.leb_le in H.
   Qed.
 
   Theorem step_fn3_sound s l s' : step_fn3 cfg_of is_cc s l = Some s' -> step3 s l s'.
